@@ -33,7 +33,7 @@ def obligations(ctx):
       obs += [
         Ob('Q3.height.history.%s' % ('cubic' if cubic else 'bilinear'), _cb('harness_height_history', defines=['CUBIC=%d' % cubic], timeout=(3000 if cubic else 600)), '[ABS-U]', 'E1 cgen+cbmc',
            'Geoid::height: for every raster geometry and every pair of positions, the height of the second query after the first (single-cell cache in any reachable state) is bit-identical to the thread-safe evaluation without history; NaN in, NaN out',
-           timeout=(3030 if cubic else 630), mem_gb=(32 if cubic else 8), tier=('thorough' if cubic else 'quick'), bounds={'histories': 'all (inductive two-query argument)', 'positions': 'all doubles', 'raster': 'arbitrary geometry'}),
+           timeout=(3030 if cubic else 630), mem_gb=(44 if cubic else 8), tier=('thorough' if cubic else 'quick'), bounds={'histories': 'all (inductive two-query argument)', 'positions': 'all doubles', 'raster': 'arbitrary geometry'}),
         Ob('Q6.height.conversions.%s' % ('cubic' if cubic else 'bilinear'), _cb('harness_height_range', defines=['H_RANGE', 'CUBIC=%d' % cubic]), '[BIT-P] hybrid', 'E1 cgen+cbmc',
            'Geoid::height: the float->int conversions of the cell indices are in range for every position (no undefined behaviour), resolution products bounded by 2^30', timeout=630,
            bounds={'positions': 'all doubles incl. NaN and +-inf', 'lon*rlonres, lat*rlatres': '< 2^30 in magnitude for finite operands'}),
